@@ -120,6 +120,24 @@ impl Group for C07 {
                 "allow 10",
                 "close2 1998000 1000000 1 10 22 RANK(10) 0 1 1 20 22 RANK(20) 0 0",
             ]),
+            // durable allowlist: X is allowlisted, then removed by a multi-entry removal whose last entry is not on
+            // the list; after a restart from the real persister X must still be gone: closes paying the holder
+            // to X are refused through both entry points; re-added and restarted: signed
+            v(&[
+                "policy 0 4 2016 1000000001 10000 1000 16777216 0 253 333333 222000 0",
+                "allow 10 11",
+                "setup 1 3000000 0 6 7 1 0 0 0",
+                "cp 0 0 0 2999000 0 0 0",
+                "hold 0 0 2999000 0 0 0 1",
+                "revoke 0",
+                "allow_rm 10 21",
+                "restart",
+                "close2 2998000 0 1 10 22 RANK(10) 0 0 0 0 0 0 0 0",
+                "close1 1 2 0 4294967295 1 1 2998000 10 22 RANK(10) 0 0",
+                "allow_add 10",
+                "restart",
+                "close2 2998000 0 1 10 22 RANK(10) 0 1 0 0 0 0 0 0",
+            ]),
             // fundee: holder value must be within epsilon of both commitments
             v(&[
                 "policy 0 4 2016 1000000001 10000 1000 16777216 0 253 333333 222000 0",
@@ -248,8 +266,42 @@ impl Group for C07 {
         let (cur_ah, cur_bh) = if depth > 2 { (ah, bh) } else { (h0, c0) };
         let (cur_ac, cur_bc) = if depth > 0 { (ac, bc) } else { (h0, c0) };
         // ---- closing requests ----
+        // a third of the cases (without chain ops: the harness feeds blocks to the tracker directly, which the
+        // node does not persist) run on the real persister: incremental allowlist updates and restarts between
+        // the closes -- what was removed from / added to the allowlist must stay so across a restart
+        let durable = !pol.onchain && rng.chance(1, 2);
         let nclose = 2 + rng.below(4);
+        let mut last_removed: Option<u64> = None;
         for j in 0..nclose {
+            if durable && (j == 0 || rng.chance(1, 2)) {
+                // incremental update; removal lists may name entries that are not (or no longer) on the list,
+                // in any position
+                let all = [10u64, 11, 12, 20, 21, 2];
+                if rng.chance(1, 2) && !allow.is_empty() {
+                    let mut rm: Vec<u64> = Vec::new();
+                    let k = rng.below(allow.len() as u64) as usize;
+                    rm.push(allow[k]);
+                    if upfront != 0 && allow.contains(&upfront) && rng.chance(1, 2) { rm.push(upfront) }
+                    let absent: Vec<u64> = all.iter().cloned().filter(|x| !allow.contains(x)).collect();
+                    if !absent.is_empty() && rng.chance(5, 6) {
+                        let x = *rng.pick(&absent);
+                        if rng.chance(1, 2) { rm.push(x) } else { rm.insert(0, x) }
+                    }
+                    rm.dedup();
+                    last_removed = rm.iter().cloned().find(|x| allow.contains(x));
+                    allow.retain(|x| !rm.contains(x));
+                    ops.push(format!("allow_rm {}", rm.iter().map(|x| x.to_string()).collect::<Vec<_>>().join(" ")));
+                } else {
+                    let mut add: Vec<u64> = vec![*rng.pick(&all)];
+                    if rng.chance(1, 2) { add.push(*rng.pick(&all)) }
+                    add.dedup();
+                    for x in &add { if !allow.contains(x) { allow.push(*x) } }
+                    ops.push(format!("allow_add {}", add.iter().map(|x| x.to_string()).collect::<Vec<_>>().join(" ")));
+                }
+                if rng.chance(5, 6) {
+                    ops.push("restart".into());
+                }
+            }
             // the allowlist changes between open and close (and between closes): scripts are added and
             // removed, in particular the upfront shutdown script -- what counts is the content at signing time
             if (j == 0 && rng.chance(1, 2)) || rng.chance(1, 6) {
@@ -262,14 +314,18 @@ impl Group for C07 {
                 ops.push(format!("allow {}", allow.iter().map(|s| s.to_string()).collect::<Vec<_>>().join(" ")).trim_end().to_string());
             }
             // destination of the holder output
-            let hd = match if upfront != 0 && rng.chance(1, 2) { 9 } else { rng.below(10) } {
+            // right after a removal: try to close to the destination that was just removed
+            let removed_now = if rng.chance(2, 3) { last_removed.take() } else { None };
+            let hd = if let Some(x) = removed_now {
+                Dest { sid: x, spend: false, allow: allow.contains(&x) }
+            } else { match if upfront != 0 && rng.chance(1, 2) { 9 } else { rng.below(10) } {
                 0 | 1 | 2 => { let s = pick(rng, &[1, 2, 3, 4, 5, 6]); Dest { sid: s, spend: true, allow: allow.contains(&s) } }
                 3 => { let s = pick(rng, &[1, 2, 3, 4]); Dest { sid: s, spend: false, allow: allow.contains(&s) } }
                 4 | 5 => { let s = pick(rng, &[10, 11, 12]); Dest { sid: s, spend: false, allow: allow.contains(&s) } }
                 6 => { let s = pick(rng, &[20, 21, 22]); Dest { sid: s, spend: false, allow: allow.contains(&s) } }
                 _ if upfront != 0 => Dest { sid: upfront, spend: up_spend && rng.chance(3, 4), allow: allow.contains(&upfront) },
                 _ => { let s = pick(rng, &[1, 2, 3, 4]); Dest { sid: s, spend: true, allow: allow.contains(&s) } }
-            };
+            } };
             let cd = { let s = pick(rng, &[20, 21, 22, 10]); Dest { sid: s, spend: false, allow: allow.contains(&s) } };
             // value of the side that does not pay the fee, at the ε edges of one of the two commitments
             let due = if outbound { if rng.chance(1, 2) { cur_bc } else { cur_bh } } else if rng.chance(1, 2) { cur_ah } else { cur_ac };
